@@ -252,3 +252,29 @@ def discipline(rep: Report, f: Fn) -> None:
     SC.rule_state_before_callout(rep, "G0-state-before-callout", f)
     SY.rule_state_before_subscribe(rep, "G0-state-before-subscribe", f)
     SY.rule_locked_state_consistent(rep, "G0-locked-state", f)
+
+
+def rule_fanout_loops(rep: Report, rule: str, root: Fn) -> int:
+    """A loop that fans a notification out over the open windows / groups (`for w in writers.values(): w.on_error(e)`)
+    delivers it to the loop variable -- not to some other subject that happens to be in scope."""
+    obs = root.params[0] if root.params else "observer"
+    n = 0
+    for g in root.walk():
+        if not g.is_func:
+            continue
+        for nd in g.direct_nodes():
+            if not isinstance(nd, ast.For) or not isinstance(nd.target, ast.Name):
+                continue
+            calls = [c for st in nd.body for c in ast.walk(st) if isinstance(c, ast.Call) and isinstance(c.func, ast.Attribute)
+                     and c.func.attr in ("on_next", "on_error", "on_completed") and isinstance(c.func.value, ast.Name)]
+            if not calls:
+                continue
+            for c in calls:
+                n += 1
+                recv = c.func.value.id
+                # the loop variable is the receiver, or the value being replayed into one subject (`s.on_next(v)` for v in ...)
+                ok = recv == nd.target.id or any(isinstance(x, ast.Name) and x.id == nd.target.id for a in c.args for x in ast.walk(a))
+                rep.ob(rule, g, f"{g.qual}: `for {nd.target.id} in {short(nd.iter, 30)}` delivers `{short(c, 40)}` to the loop variable", ok,
+                       f"{g.qual}: the loop over `{u(nd.iter)}` calls `{u(c.func)}` on `{recv}`, not on its loop variable "
+                       f"`{nd.target.id}`: one subject receives the notification once per open window / group, the others never do")
+    return n
